@@ -42,4 +42,12 @@ class Scn:
         return self
 
     def text(self):
-        return '\n'.join(self.lines) + '\n'
+        from . import cfggen
+        pre = []
+        seen = set()
+        for l in self.lines:
+            for tok in l.split():
+                if tok in cfggen.REGISTRY and tok not in seen:
+                    seen.add(tok)
+                    pre += cfggen.cfgfile_lines(tok)
+        return '\n'.join(self.lines[:3] + pre + self.lines[3:]) + '\n'
